@@ -9,7 +9,7 @@ class BackwardScanner:
         self.pos = pos
 
     def prev(self):
-        return self.text[self.pos - 1] if self.pos else ''
+        return self.text[self.pos - 1] if 0 < self.pos <= len(self.text) else ''
 
     def cur(self):
         return self.text[self.pos] if self.pos < len(self.text) else ''
